@@ -17,5 +17,5 @@ VIEW View
 CONSTRAINT Bounded
 ACTION_CONSTRAINT Emit
 CHECK_DEADLOCK FALSE
-INVARIANTS WellFormedInv DeclaredDigestHonest RevealKeepsDigest
+INVARIANTS WellFormedInv DeclaredDigestHonest RevealKeepsDigest C15Laws
 PROPERTIES C02Prop C03Prop C07Prop
